@@ -30,7 +30,7 @@ for be in BACKS:
         Part(SM, [], 'execute_return process_event_internal ( %s , EventSource source = EVENT_SOURCE_DEFAULT )' % EV),
         'HandledEnum process_event_internal(fsm_t* self, event_t evt, EventSource source)', 'evloop_back.spec.h',
         xform=xf(PEI_RW, throwers=['do_process_helper', 'PROCESS_COMPLETION_EVENT', 'do_handle_prio_msg_queue_deferred_queue']),
-        also_replace=['process_completion_event'], replay=['queue']))
+        also_replace=['process_completion_event'], replay=['queue', 'block', 'exc', 'defer']))
     UNITS.append(Unit(be + '.do_pre_msg_queue_helper', ['C04', 'C18', 'C13'], be,
         [Part(SM, [], 'bool do_pre_msg_queue_helper ( EventType const & , true_ const & )'),
          Part(SM, [], 'bool do_pre_msg_queue_helper ( EventType const & evt , false_ const & )')],
